@@ -210,7 +210,7 @@ fn run_trans(deep: bool) -> (String, Vec<trans::Failure>) {
 
 fn main() {
     // panics of the code under test are caught and reported by the checks; keep stderr quiet
-    std::panic::set_hook(Box::new(|_| {}));
+    if std::env::var("VERIF_HARNESS_PANICS").is_err() { std::panic::set_hook(Box::new(|_| {})); }
     let args: Vec<String> = std::env::args().collect();
     let check = args.get(1).cloned().unwrap_or_default();
     let deep = args.iter().any(|a| a == "--deep");
